@@ -185,13 +185,28 @@ def _site(tb):
     return best
 
 
-def assemble(lines, watchdog=True):
-    """Program().process(lines) on the real code; returns an Outcome."""
+class _WallClock(BaseException):
+    pass
+
+
+def _on_alarm(signum, frame):
+    raise _WallClock()
+
+
+def assemble(lines, watchdog=True, wall_limit=None):
+    """Program().process(lines) on the real code; returns an Outcome.
+    wall_limit (seconds, concrete inputs only): a run that exceeds it is classified as non-termination."""
+    import signal
     p = Program()
     _WD["count"] = 0
     _WD["limit"] = True if watchdog else None
+    if wall_limit:
+        old = signal.signal(signal.SIGALRM, _on_alarm)
+        signal.setitimer(signal.ITIMER_REAL, wall_limit)
     try:
         p.process([l if l.endswith("\n") else l + "\n" for l in lines])   # as SourceFile.readlines() delivers them
+    except _WallClock:
+        return Outcome("loop", p)
     except (ParseError, TranslationError) as e:
         return Outcome("diag", p, e)
     except NonTermination:
@@ -200,6 +215,9 @@ def assemble(lines, watchdog=True):
         return Outcome("internal", p, e, _site(e.__traceback__))
     finally:
         _WD["limit"] = None
+        if wall_limit:
+            signal.setitimer(signal.ITIMER_REAL, 0)
+            signal.signal(signal.SIGALRM, old)
     return Outcome("ok", p)
 
 
